@@ -62,6 +62,7 @@ func runC04(c *Check, w *World) {
 			}
 		}
 	}
+	checkDigitsInt(c, w, tb, "R04.7")
 	ruleHistoryIndependence(c, w, tb, ef, "R04.H", val)
 	checkRESTEndpoints(c, w, tb, ef, "R04.REST", "/totp/validate")
 	c.Floor("R04.1", 1)
